@@ -39,6 +39,11 @@ def cli_diff(ctx, cases, project=None, tag="", inproc=False, keyf=None):
         d = None
         if i["status"].startswith("crash") or i["status"] == "timeout": d = "implementation " + i["status"]
         elif mst != i["status"]: d = "status: model %s / implementation %s" % (mst, i["status"])
+        elif c["cmd"] in ("quantity", "element-total") and i["stdout"].count(b"\n") > 20 and re.search(rb"^NaN\t", i["stdout"], re.M):
+            # more than 20 rows with a NaN among the values: Go's stable sort switches from insertion sort to block merging and
+            # "less" is not an order on NaN; the row order is outside the model (DESIGN §7). Same rows required, order not compared.
+            ctx.tally("model", "unmodelled: NaN in a sort of more than 20 rows")
+            if sorted(mout.split(b"\n")) != sorted(i["stdout"].split(b"\n")): d = "rows differ from the model (order not compared: NaN among more than 20 sorted values)"
         else:
             a, b = (mout, i["stdout"]) if project is None else (project(mout), project(i["stdout"]))
             if a != b: d = "output differs from the model: model %r / implementation %r" % (first_diff(a, b))
@@ -178,6 +183,16 @@ def check_C01(ctx):
         cases.append(dict(files=f, cmd="csv-db-resolved", **NOCOLOR))
         cases.append(dict(files=f, cmd="element-total", arg=r.choice(els).encode(), **NOCOLOR))
         cases.append(dict(files=f, cmd="reg", **NOCOLOR))
+    # nesting deeper than the default limit, allowed by an explicit limit (flag / environment / configuration file), for every command that resolves
+    for N in (11, 12, 14, 16):
+        b = gen.render_items(r, gen.chain_book(r, N - 1))
+        f = {"food.yaml": b, "log.yaml": b"2021/01/01:\n  r0: 2\n  r3: 1\n"}
+        for cmd, kw in (("csv-db-resolved", {}), ("element-total", dict(arg=b"salt")), ("reg", {}), ("bal", dict(single_element="salt")), ("totals", {}), ("unresolved", {}), ("summary", dict(arg=b"2021/01/01"))):
+            how = r.choice(["f_depth", "e_depth", "cfg"])
+            c = dict(files=dict(f), cmd=cmd, **kw, **NOCOLOR)
+            if how == "cfg": c["files"]["d.cfg"] = {"cfg": {"depth": N}}; c["f_config"] = "d.cfg"
+            else: c[how] = N
+            cases.append(c)
     cli_diff(ctx, cases, project=ws_norm, tag="C01:")
     return dict(rule="random layered recipe DAGs (sharing, diamonds, repeated ingredients, empty recipes, duplicate headings, any declaration order; "
                 "special float lexemes) resolved through both public entry points, %d fresh maps each, compared bit-exactly with the extracted Coq model under 3 "
@@ -332,7 +347,12 @@ def check_C09(ctx):
         errs = [bytes.fromhex(l[2:].decode()) for l in want.split(b"\n") if l.startswith(b"E ")]
         if not errs: continue
         for cmd in r.sample(["reg", "bal", "csv-log", "print", "quantity", "totals", "unresolved", "stats"], 3):
-            c = dict(files={"food.yaml": good_book, "log.yaml": data}, cmd=cmd, f_today="2021/02/01", **NOCOLOR); c["_first"] = errs[0]; cases.append(c)
+            c = dict(files={"food.yaml": good_book, "log.yaml": data}, cmd=cmd, f_today="2021/02/01", **NOCOLOR); c["_first"] = errs[0]
+            if cmd != "stats" and r.random() < 0.5:
+                # a period that ends (or begins) somewhere inside the file: the whole file is still read, the first malformed line still reported
+                d0 = r.choice(days)
+                c[r.choice(["g_end", "g_begin"])] = "%04d/%02d/%02d" % d0
+            cases.append(c)
     firsts = [c.pop("_first") for c in cases]
     ires = cli_diff(ctx, cases, project=ws_norm, tag="C09:cmd:")
     for c, first, i in zip(cases, firsts, ires):
@@ -393,6 +413,16 @@ def check_C10(ctx):
             for cmd in ("reg", "bal", "csv-log", "print", "totals", "quantity", "unresolved"):
                 c = dict(files={"food.yaml": b"a:\n  x: 1\n", "log.yaml": body}, cmd=cmd, f_today="2021/01/05", g_end=end, **NOCOLOR)
                 if cmd in ("reg", "bal", "csv-log", "print") and r.random() < 0.5: c["l_end"] = c.pop("g_end")
+                cases.append(c)
+    # a file that is readable but has no size (a FIFO): complete when readable, an error when it carries an over-long line
+    for cmd in ("reg", "csv-log", "totals", "csv-db", "csv-db-resolved", "lint", "stats", "print"):
+        for which in ("log.yaml", "food.yaml"):
+            for body in (b"2021/01/01:\n  a: 1\n  b: 2\n2021/01/02:\n  a: 3\n", b"2021/01/01:\n  a: 1\n" + b"#" + b"z" * 70000 + b"\n2021/01/02:\n  a: 3\n"):
+                files = {"food.yaml": b"a:\n  x: 1\n", "log.yaml": b"2021/01/01:\n  a: 1\n"}
+                files[which] = body if which == "log.yaml" else body.replace(b"2021/01/0", b"rec")
+                c = dict(files=files, cmd=cmd, f_today="2021/01/05", fifo=[which], **NOCOLOR)
+                if cmd == "lint": c["arg"] = which.encode()
+                if which not in (["log.yaml", "food.yaml"] if cmd in ("reg", "totals", "stats") else ["log.yaml"] if cmd in ("csv-log", "print") else ["food.yaml"] if cmd != "lint" else [which]): continue
                 cases.append(c)
     # a directory given as a file
     for cmd in ("reg", "bal", "csv-log", "print", "quantity", "totals", "unresolved", "summary", "stats", "lint", "csv-db", "csv-db-resolved", "element-total"):
